@@ -21,7 +21,7 @@ theorem descend {K' : List HTree} {m : Nat} {vm : Value} {mk : List HTree}
       frameHandles fs ++ c :: handlesList (K' ++ [.node m vm mk]) := by
     simp [frameHandles_append, frameHandles, handlesList_append, handlesList, handles]
   refine ⟨?_, ?_, ?_⟩
-  · rw [w.roots, plug_append]
+  · rw [w.roots, fcPlug_append]
   · rw [e]; exact w.nodup
   · rw [e]; exact w.fresh
 
@@ -36,7 +36,7 @@ theorem lastChild_ne (w : Work g R fs c vc K n v) : (g.lastChild c == some n) = 
     rw [w.lastChild_snoc]
     have hx : x.handle ≠ n := w.kn (by
       rw [handlesList_append, handlesList_singleton]
-      exact List.mem_append_right _ (handle_mem_handles x))
+      exact List.mem_append_right _ (fc_handle_mem_handles x))
     by_cases hN : x.value.isNormal = true <;> simp [hN, hx]
 
 theorem structureCheck_fresh (w : Work g R fs c vc K n v)
@@ -48,7 +48,7 @@ theorem structureCheck_fresh (w : Work g R fs c vc K n v)
   cases v <;> simp_all [Value.isNormal, Value.category, Value.isDocument]
 
 theorem checkedAppend_fresh (w : Work g R fs c vc K n v) :
-    g.checkedAppend c n = (g.withRoots (R ++ [plug fs (.node c vc (K ++ [.node n v []]))]), true) := by
+    g.checkedAppend c n = (g.withRoots (R ++ [fcPlug fs (.node c vc (K ++ [.node n v []]))]), true) := by
   unfold Forest.checkedAppend
   have h1 : (c = n) = False := by simp [Ne.symm w.nc]
   simp only [h1, w.not_anc, decide_false, Bool.or_false, Bool.false_eq_true, if_false, w.cut_n]
@@ -105,7 +105,7 @@ theorem append_plain (w : Work g R fs c vc K n v)
     (hv : v.isNormal = true) (hnd : v.isDocument = false)
     (hnm : g.consolidation = false ∨ v.isText = false ∨
       ∀ K' x, K = K' ++ [x] → x.value.isText = false) :
-    g.append c n = (g.withRoots (R ++ [plug fs (.node c vc (K ++ [.node n v []]))]), .ok) := by
+    g.append c n = (g.withRoots (R ++ [fcPlug fs (.node c vc (K ++ [.node n v []]))]), .ok) := by
   unfold Forest.append
   simp only [w.structureCheck_fresh hvc hv hnd, w.lastChild_ne, w.prevSibling_n, w.nextSibling_n,
     removeConsolidate_none, w.addConsolidate_plain hnm, w.checkedAppend_fresh,
